@@ -339,7 +339,65 @@ func solveResults(results []*FuncResult, keep func(*Obligation) bool, workdir st
 			}
 		}
 	}
-	return solveGroups(groups, tainted, workdir, timeoutS, workers, thorough), all
+	stats := solveGroups(groups, tainted, workdir, timeoutS, workers, thorough)
+	recheckAfterFailures(all, workdir, timeoutS, stats)
+	return stats, all
+}
+
+// recheckAfterFailures: goals are assumed once asserted (assert-then-assume). An obligation that was
+// proved downstream of a goal that did NOT get proved is re-solved without that goal among its
+// hypotheses, so that one failure cannot hide another one behind an inconsistent assumption.
+func recheckAfterFailures(all []*Obligation, workdir string, timeoutS int, stats *solveStats) {
+	var failed []*Obligation
+	for _, o := range all {
+		if o.Status != "proved" && o.Kind != "cover" && o.goalNode != nil {
+			failed = append(failed, o)
+		}
+	}
+	if len(failed) == 0 {
+		return
+	}
+	for _, p := range all {
+		if p.Status != "proved" || p.Kind == "cover" || p.x == nil {
+			continue
+		}
+		drop := map[*factNode]bool{}
+		for _, f := range failed {
+			if f.x == p.x && f != p && f.goalNode.n <= nodeN(p.pre) && isAncestor(f.goalNode, p.pre) {
+				drop[f.goalNode] = true
+			}
+		}
+		if len(drop) == 0 {
+			continue
+		}
+		var facts []string
+		for n := p.pre; n != nil; n = n.prev {
+			if !drop[n] {
+				facts = append(facts, n.line)
+			}
+		}
+		for i, j := 0, len(facts)-1; i < j; i, j = i+1, j-1 {
+			facts[i], facts[j] = facts[j], facts[i]
+		}
+		q := *p
+		q.Facts = facts
+		q.Script = p.x.script(&q)
+		q.Status = ""
+		standalone(&q, workdir, timeoutS, false, stats)
+		if q.Status != "proved" {
+			p.Status = "unknown"
+			p.Blocked = "held only with an unproved earlier obligation of the same path as hypothesis"
+			p.Output = p.Blocked + "; without it: " + q.Output
+			p.Solver = q.Solver
+		}
+	}
+}
+
+func nodeN(n *factNode) int {
+	if n == nil {
+		return -1
+	}
+	return n.n
 }
 
 // modelFor re-runs a failed obligation asking for a model; quantified facts are kept
